@@ -593,6 +593,11 @@ func (t *termer) t(v ssa.Value, d int) string {
 	case *ssa.Field:
 		return t.t(v.X, d+1) + "." + fieldName(v.X.Type(), v.Field)
 	case *ssa.IndexAddr:
+		if al, ok := v.X.(*ssa.Alloc); ok {
+			if sv := singleStore(al); sv != nil {
+				return t.t(sv, d+1) + "[" + t.t(v.Index, d+1) + "]"
+			}
+		}
 		return t.t(v.X, d+1) + "[" + t.t(v.Index, d+1) + "]"
 	case *ssa.Index:
 		return t.t(v.X, d+1) + "[" + t.t(v.Index, d+1) + "]"
@@ -769,6 +774,15 @@ func singleStore(a *ssa.Alloc) ssa.Value {
 			// field of a spilled struct value: fine if the field is only read
 			if isWriteAccess(r) || fieldAddrEscapes(r) {
 				return nil
+			}
+		case *ssa.IndexAddr:
+			// element of a spilled array value: fine if elements are only read
+			for _, rr := range *r.Referrers() {
+				if _, isLoad := rr.(*ssa.UnOp); !isLoad {
+					if _, isDbg := rr.(*ssa.DebugRef); !isDbg {
+						return nil
+					}
+				}
 			}
 		case *ssa.MakeClosure:
 			// captured by a function literal: fine as long as the literal never assigns the variable
